@@ -519,6 +519,75 @@ def asan_stage(pid, sub, seed, outdir, timeout=3600):
     return summ, viol, inconc
 
 
+VFUZZ = os.path.join(HARNESS, "vfuzz")
+
+
+def fuzz_stage(pid, seed, vmain, outdir, seconds):
+    """libFuzzer (cargo-fuzz, ASan build) as a coverage-guided workload source for C02: the
+    evolved corpus and every crash / timeout / oom artifact are replayed through vmain's
+    monitors, which give the verdict.  Returns (summary, violations, inconclusive, reports)."""
+    summ = {"tool": "cargo +nightly fuzz run decode_any (libFuzzer, -fork=%d, AddressSanitizer)" % NCPU, "seconds": seconds}
+    viol, inconc = {}, []
+    corpus = os.path.join(outdir, "fuzz-corpus")
+    art = os.path.join(outdir, "fuzz-artifacts")
+    os.makedirs(art, exist_ok=True)
+    e = dict(ENV)
+    e["RUSTFLAGS"] = ""
+    lock = os.path.join(VFUZZ, "fuzz", "Cargo.lock")
+    if not os.path.exists(lock):
+        shutil.copy(os.path.join(HARNESS, "Cargo.lock"), lock)
+    b = subprocess.run(["cargo", "+nightly", "fuzz", "build", "decode_any"], cwd=VFUZZ, env=e, stdout=subprocess.PIPE, stderr=subprocess.STDOUT, text=True)
+    if b.returncode != 0:
+        inconc.append("libFuzzer target does not build against the current tree: %s" % b.stdout[-800:].replace("\n", " | "))
+        return summ, viol, inconc, []
+    subprocess.run([vmain, "c02", "--tier", "seedcorpus", "--seed", str(seed), "--dir", corpus], cwd=HARNESS, env=ENV, stdout=subprocess.DEVNULL, stderr=subprocess.DEVNULL)
+    summ["seed_corpus_files"] = len(os.listdir(corpus)) if os.path.isdir(corpus) else 0
+    cmd = ["cargo", "+nightly", "fuzz", "run", "decode_any", corpus, "--", "-max_total_time=%d" % seconds, "-fork=%d" % NCPU, "-timeout=20", "-malloc_limit_mb=256", "-rss_limit_mb=4096",
+           "-max_len=512", "-len_control=0", "-seed=%d" % (seed + 1), "-ignore_crashes=1", "-ignore_timeouts=1", "-ignore_ooms=1", "-artifact_prefix=%s/" % art]
+    try:
+        p = subprocess.run(cmd, cwd=VFUZZ, env=e, stdout=subprocess.PIPE, stderr=subprocess.STDOUT, text=True, timeout=seconds + 600)
+        out = p.stdout
+    except subprocess.TimeoutExpired as ex:
+        out = (ex.stdout or b"").decode("utf-8", "replace") if isinstance(ex.stdout, bytes) else (ex.stdout or "")
+        inconc.append("libFuzzer did not stop within its time box")
+    import re as _re
+    stats = _re.findall(r"#(\d+): cov: (\d+) ft: (\d+) corp: (\d+)", out)
+    if stats:
+        n, cov, ft, corp = stats[-1]
+        summ.update({"executions": int(n), "coverage_edges": int(cov), "features": int(ft), "corpus_units": int(corp)})
+    else:
+        inconc.append("no libFuzzer statistics in its output: %s" % out[-400:].replace("\n", " | "))
+    arts = sorted(os.listdir(art))
+    summ["artifacts"] = {k: len([a for a in arts if a.startswith(k)]) for k in ("crash", "timeout", "oom", "leak")}
+    # replay: artifacts first (copied next to the corpus so that one pass covers both)
+    for a in arts:
+        shutil.copy(os.path.join(art, a), os.path.join(corpus, a))
+    summ["corpus_files_replayed"] = len(os.listdir(corpus))
+    reports, problems = run_workers(vmain, "c02", "fuzzreplay", seed, NCPU, os.path.join(outdir, "fuzzreplay"), extra=["--dir", corpus], timeout=3600, tag="fz")
+    for pr in problems:
+        inconc.append("fuzz replay shard %s failed (%s): %s" % (pr.get("shard"), pr.get("kind"), (pr.get("stderr_tail") or "")[-300:].replace("\n", " | ")))
+    for r in reports:
+        keep = []
+        for n in r["notes"]:
+            if n.startswith("ARTIFACT-NOT-REPRODUCED"):
+                _, kind, name = n.split(" ", 2)
+                if kind in ("crash", "leak"):
+                    # the fuzz target only calls the library and asserts position <= len: a crash that
+                    # the (non-ASan) monitors do not see is a sanitizer report or an assert
+                    sig = "%s|libfuzzer|%s" % (pid, kind)
+                    v = viol.setdefault(sig, {"count": 0, "examples": []})
+                    v["count"] += 1
+                    if len(v["examples"]) < 2:
+                        data = open(os.path.join(art, name), "rb").read()
+                        v["examples"].append({"detail": {"what": "libFuzzer %s artifact not reproduced by the monitors (AddressSanitizer report or assertion in the fuzz target)" % kind, "input": data[:400].hex(), "rerun": "cd harness/vfuzz && cargo +nightly fuzz run decode_any <file with these bytes>"}, "replay": ["c02", "--replay", "input", data[:4000].hex()]})
+                else:
+                    inconc.append("libFuzzer %s artifact %s is within the monitors' budgets when replayed (slow or loaded machine?)" % (kind, name))
+            else:
+                keep.append(n)
+        r["notes"] = keep
+    return summ, viol, inconc, reports
+
+
 def sanitized_check(pid, tier, seed, spec):
     """Workers + Miri shard (both tiers) + ASan re-run (thorough)."""
     t0 = time.time()
@@ -542,6 +611,20 @@ def sanitized_check(pid, tier, seed, spec):
             merged["violations"].update(av)
             merged["inconclusive"] += ai
             merged["evaluations"] += as_["evaluations"]
+        if tier == "thorough" and spec.get("fuzz_seconds"):
+            fs, fv, fi, freports = fuzz_stage(pid, seed, vmain, od, spec["fuzz_seconds"])
+            san["libfuzzer"] = fs
+            m2 = merge_reports(freports)
+            for sig, v in m2["violations"].items():
+                e = merged["violations"].setdefault(sig, {"count": 0, "examples": []})
+                e["count"] += v["count"]
+                e["examples"] += v["examples"][:2]
+            for k, v in m2["counters"].items():
+                merged["counters"][k] = merged["counters"].get(k, 0) + v
+            merged["violations"].update({k: v for k, v in fv.items() if k not in merged["violations"]})
+            merged["inconclusive"] += fi + m2["inconclusive"]
+            merged["evaluations"] += m2["evaluations"] + fs.get("executions", 0)
+            dh += merge_hashes(vmain, [os.path.join(od, "fuzzreplay")])
         return finish(pid, tier, seed, spec, merged, problems, dh, time.time() - t0, {"sanitizers": san})
     finally:
         shutil.rmtree(od, ignore_errors=True)
@@ -572,6 +655,7 @@ CHECKS["C02"] = {
     "runner": sanitized_check,
     "miri_ops": {"quick": 640, "thorough": 8000},
     "asan": True,
+    "fuzz_seconds": 150,
     "level": "exploration",
     "technique": "runtime monitoring with sanitizers: panic/step/allocation/position/drop monitors over hostile inputs; Miri on the unsafe paths; AddressSanitizer+LeakSanitizer re-run",
     "rule": "inputs: all byte strings of length <= 2 (quick) / 3 (thorough); all 256 initial bytes x every argument width x boundary arguments x fillers, alone and nested in 8 contexts; type-directed mutants of valid encodings of every built-in type, of random item trees and of arrays aimed at the [T; N] paths; large hostile inputs. Each input runs through ~185 entry points (typed decode of every built-in type incl. drop-tracking containers, every accessor, skip, iterators drained and abandoned, tokens, probe, info::Size) and through random sequences of <= 8 decoder calls interleaved with set_position (incl. usize::MAX). distinct = enumerated inputs + distinct hashed mutants (each x all entry points)",
